@@ -374,6 +374,7 @@ class Exec:
         self.call_snaps: dict[str, Snap] = {}
         self._distinct_cache: dict = {}
         self.epochs: list = [self.alloc0]
+        self.epoch_prev: dict = {}  # epoch term id -> allocation pointer just before it was introduced
         self.map_bound: dict[str, Any] = {}
 
     # ------------------------------------------------------------------ utils
@@ -528,7 +529,22 @@ class Exec:
         c, x, y = t.arg(0), t.arg(1), t.arg(2)
         if self._cond_false_for_old(c, idx):
             return self._resolve_havoc(y, idx, name, depth + 1)
+        if self._cond_true_for_fresh(c, idx):
+            return x
         return t
+
+    def _cond_true_for_fresh(self, c, idx) -> bool:
+        """c has a disjunct `idx >= alloc0` and idx is syntactically an object allocated by
+        this function (alloc0 + k or a later allocation pointer + k; pointers only grow)."""
+        if not self._is_fresh_id(idx):
+            return False
+        atoms = list(c.children()) if z3.is_or(c) else [c]
+        for a in atoms:
+            if z3.is_true(a):
+                return True
+            if z3.is_app(a) and a.decl().kind() == z3.Z3_OP_GE and a.arg(0).eq(idx) and a.arg(1).eq(self.alloc0):
+                return True
+        return False
 
     def _cond_false_for_old(self, c, idx) -> bool:
         """c is a disjunction of `idx >= <allocation pointer>` atoms and idx denotes an
@@ -554,6 +570,9 @@ class Exec:
         elif (self._is_fresh_id(a) and is_old(b)) or (self._is_fresh_id(b) and is_old(a)):
             # an object allocated by this function vs. an object reached from the entry heap
             res = True
+        elif self._fresh_rank_distinct(a, b):
+            # two objects allocated by this function in different allocation epochs
+            res = True
         elif getattr(self, "bound_depth", 0) > 0 and _has_var(a, b):
             res = False
         else:
@@ -575,6 +594,32 @@ class Exec:
             if z3.is_int_value(d) and d.as_long() >= 0:
                 return True
         return False
+
+    def _fresh_rank(self, a):
+        """(epoch index, offset) of an id of the form  <allocation boundary> + k."""
+        best = None
+        for i, b in enumerate(self.epochs):
+            d = z3.simplify(a - b)
+            if z3.is_int_value(d) and d.as_long() >= 0:
+                best = (i, d.as_long())
+        return best
+
+    def _fresh_rank_distinct(self, a, b) -> bool:
+        """a = e_i + c1, b = e_j + c2 with i < j: e_j was introduced as  e_j >= pointer_before_j,
+        and pointers only grow, so a < e_j <= b whenever a had been allocated before the
+        boundary e_{i+1} was drawn (c1 < pointer_before_{i+1} - e_i)."""
+        ra, rb = self._fresh_rank(a), self._fresh_rank(b)
+        if ra is None or rb is None:
+            return False
+        if ra[0] == rb[0]:
+            return ra[1] != rb[1]
+        (i, c1), (j, _) = (ra, rb) if ra[0] < rb[0] else (rb, ra)
+        nxt = self.epochs[i + 1]
+        prev = self.epoch_prev.get(nxt.get_id())
+        if prev is None:
+            return False
+        n = z3.simplify(prev - self.epochs[i])
+        return z3.is_int_value(n) and c1 < n.as_long()
 
     def wr(self, name: str, idx, val) -> None:
         self.heap[name] = z3.Store(self.H(name), idx, val)
@@ -1293,6 +1338,11 @@ class Exec:
             if objs and all(t is not None for t in tys):
                 fty = T.union(*tys)  # type: ignore[arg-type]
                 return self.typed(self.rd("fld:" + name, self.ref_id(base)), fty)
+            have = [t for t in tys if t is not None]
+            if self.spec and have:
+                # pure evaluation (both arms of a conditional expression are built): the field
+                # of the alternatives that have it; meaningless, and unused, for the others
+                return self.typed_nopc(self.rd("fld:" + name, self.ref_id(base)), T.union(*have))
         if bt.kind == "any" or (bt.kind == "obj" and INDEX.cls(bt.cls) is None):
             # dynamically typed value: an attribute read yields an unknown value
             self.note_assumption("attribute reads on dynamically typed values are side-effect free (value unknown)")
